@@ -80,7 +80,16 @@ fn gen_job(rng: &mut Rng, id: u32) -> Job {
                 value: ByteBuf(rng.bytes(12)),
             },
         ),
-        6 => Job::Time(api, TimeJob::NotifyAfterNanos(rng.below(1 << 40))),
+        6 => match rng.below(4) {
+            // the capability API's clear works through a process-wide set of ids: clears of the
+            // timer started last (pending or already finished) and start-then-clear in one update
+            0 => match *caplab::app::LAST_TIMER_ID.lock().unwrap() {
+                Some(id) => Job::Time(Api::Legacy, TimeJob::Clear(id)),
+                None => Job::Time(api, TimeJob::Now),
+            },
+            1 => Job::Time(api, TimeJob::SetThenClearNanos(rng.below(1 << 20))),
+            _ => Job::Time(api, TimeJob::NotifyAfterNanos(rng.below(1 << 40))),
+        },
         7 => Job::Time(api, TimeJob::Now),
         8 => Job::Render(api),
         _ => Job::Batch((0..rng.range(2, 4)).map(|i| gen_job_simple(rng, id * 10 + i as u32)).collect()),
@@ -169,6 +178,7 @@ impl TimerNorm {
 /// One replay: every output of the bridge, serialized, in order (timer ids normalised)
 fn replay(hseed: u64) -> Result<Vec<Vec<u8>>, String> {
     let mut rng = Rng::new(hseed);
+    *caplab::app::LAST_TIMER_ID.lock().unwrap() = None;
     let bridge: Bridge<AppD> = Bridge::new(Core::new());
     let mut norm = TimerNorm { map: HashMap::new() };
     let mut outputs: Vec<Vec<u8>> = vec![];
@@ -381,6 +391,7 @@ fn main() {
         }
     }
     timer_handle_laws(&report);
+    timer_race_replays(&report);
     report.lock().unwrap().finish(&args);
 }
 
@@ -516,6 +527,110 @@ fn equality_case(rng: &mut Rng, r: &mut Report) {
     }
     if ab == want && ba == want {
         r.nontrivial(vcommon::hash_json(&(format!("{c1:?}"), format!("{c2:?}"))));
+    }
+}
+
+/// Command-level timer histories in which the shell's answer and the app's clear are both waiting
+/// when the timer task is next polled: which one wins must not vary between replays.
+fn timer_race_replays(report: &Arc<Mutex<Report>>) {
+    use crux_time::command::{Time, TimerOutcome};
+    #[crux_core::macros::effect]
+    pub enum Effect {
+        Time(TimeRequest),
+    }
+    // P = poll, F = shell answers the timer request, C = app clears, A = shell answers the clear
+    let histories = ["PFCP", "PCFP", "PFCPAP", "PCFPAP", "CP", "PCPFP", "PCPAFP", "PFP", "PCPAP"];
+    for after in [true, false] {
+        for built in [0u8, 1] {
+            for h in histories {
+                let run = || -> Vec<String> {
+                    let outcome = |o: TimerOutcome| matches!(o, TimerOutcome::Completed(_));
+                    let (mut cmd, handle) = if after {
+                        let (b, hd) = Time::<Effect, bool>::notify_after(std::time::Duration::from_millis(9));
+                        (if built == 0 { b.then_send(outcome) } else { crux_core::Command::new(move |ctx| { let f = b.into_future(ctx.clone()); async move { let o = f.await; ctx.send_event(outcome(o)); } }) }, hd)
+                    } else {
+                        let (b, hd) = Time::<Effect, bool>::notify_at(std::time::SystemTime::UNIX_EPOCH + std::time::Duration::from_secs(1_700_000_123));
+                        (if built == 0 { b.then_send(outcome) } else { crux_core::Command::new(move |ctx| { let f = b.into_future(ctx.clone()); async move { let o = f.await; ctx.send_event(outcome(o)); } }) }, hd)
+                    };
+                    let mut handle = Some(handle);
+                    let mut request = None;
+                    let mut clear_request = None;
+                    let mut tid = None;
+                    let mut trace = vec![];
+                    for c in h.chars() {
+                        match c {
+                            'P' => {
+                                let mut line = String::from("poll:");
+                                for e in cmd.effects().collect::<Vec<_>>() {
+                                    let Effect::Time(r) = e;
+                                    match r.operation.clone() {
+                                        TimeRequest::NotifyAfter { id, .. } | TimeRequest::NotifyAt { id, .. } => {
+                                            tid = Some(id);
+                                            request = Some(r);
+                                            line.push_str(" timer-request");
+                                        }
+                                        TimeRequest::Clear { .. } => {
+                                            clear_request = Some(r);
+                                            line.push_str(" clear-request");
+                                        }
+                                        TimeRequest::Now => line.push_str(" now?"),
+                                    }
+                                }
+                                for ev in cmd.events().collect::<Vec<_>>() {
+                                    line.push_str(if ev { " completed" } else { " cleared" });
+                                }
+                                trace.push(line);
+                            }
+                            'F' => {
+                                if let (Some(r), Some(id)) = (request.as_mut(), tid) {
+                                    let resp = if after { TimeResponse::DurationElapsed { id } } else { TimeResponse::InstantArrived { id } };
+                                    trace.push(format!("fire:{}", r.resolve(resp).is_ok()));
+                                }
+                            }
+                            'C' => {
+                                if let Some(hd) = handle.take() {
+                                    hd.clear();
+                                }
+                            }
+                            _ => {
+                                if let (Some(r), Some(id)) = (clear_request.as_mut(), tid) {
+                                    trace.push(format!("answer-clear:{}", r.resolve(TimeResponse::Cleared { id }).is_ok()));
+                                }
+                            }
+                        }
+                    }
+                    trace
+                };
+                let res = vcommon::trap(|| {
+                    let first = run();
+                    let mut differing = None;
+                    for rep in 1..48 {
+                        let again = run();
+                        if again != first {
+                            differing = Some((rep, again));
+                            break;
+                        }
+                    }
+                    (first, differing)
+                });
+                let mut r = report.lock().unwrap();
+                r.eval();
+                r.count("timer_race_histories", 1);
+                r.count("timer_race_replays", 48);
+                match res {
+                    Ok((first, None)) => {
+                        r.nontrivial(vcommon::hash_json(&("timer-race", h, after, built)));
+                        let _ = first;
+                    }
+                    Ok((first, Some((rep, again)))) => r.violation(
+                        "replay-differs/in-process/timer-race",
+                        &format!("replay {rep} of a command-level timer history differs from the first: {again:?} vs {first:?}"),
+                        json!({"lane": "detlab-timer-race", "history_P_poll_F_fire_C_clear_A_answer_clear": h, "notify_after": after, "built": built}),
+                    ),
+                    Err(p) => r.violation(&format!("panic/{}", vcommon::panic_site(&p)), &format!("panic: {p}"), json!({"lane": "detlab-timer-race", "history": h})),
+                }
+            }
+        }
     }
 }
 
